@@ -62,6 +62,10 @@ inductive Step (Val : Type)
   /-- A Python-level *value-dependent shortcut* (`where`, `logical_and/or`, …): when operand `g` holds data `v` and
   `choice v = some k`, the call hands back a copy of operand `k` instead of emitting `op`. -/
   | guarded (op : String) (args : List Nat) (g : Nat) (choice : Val → Option Nat)
+  /-- A *two-sided* shortcut of a binary operator (`logical_and`, `logical_or`): when operand `a` holds data `v` with
+  `chA v`, the call hands back a copy of `b`; otherwise, when `b` holds data `w` with `chB w`, a copy of `a`; otherwise
+  it emits `op [a, b]`. -/
+  | guarded2 (op : String) (a b : Nat) (chA chB : Val → Bool)
 
 def allEager (h : Heap Val) : List Nat → Option (List Val)
   | [] => some []
@@ -83,6 +87,13 @@ def resolve (h : Heap Val) : Step Val → Step Val
                         | none => .prim op args)
            | none => .prim op args)
       | _, _ => .prim op args
+  | .guarded2 op a b chA chB =>
+      match h[a]?, h[b]? with
+      | some ca, some cb =>
+          if (ca.eager.map chA).getD false then .copy b
+          else if (cb.eager.map chB).getD false then .copy a
+          else .prim op [a, b]
+      | _, _ => .prim op [a, b]
   | s => s
 
 /-- The `@eager_propagate` wrapper and the other transitions.  `none` = a Python exception. -/
@@ -100,6 +111,7 @@ def stepBase (sem : String → List Val → Option Val) (ort : Bool) (h : Heap V
   | .set dst src =>
       (h[src]?).bind (fun c => if dst < h.length then some (h.set dst ⟨c.var, c.eager⟩) else none)
   | .guarded _ _ _ _ => none      -- resolved before it gets here
+  | .guarded2 _ _ _ _ _ => none
 
 /-- One transition: shortcuts are resolved against the current state first. -/
 def step (sem : String → List Val → Option Val) (ort : Bool) (h : Heap Val) (s : Step Val) : Option (Heap Val) :=
@@ -117,6 +129,7 @@ inductive PStep (Val : Type)
   | copy (r : Nat)
   | set (dst src : Nat)
   | guarded (op : String) (args : List Nat) (g : Nat) (choice : Val → Option Nat)
+  | guarded2 (op : String) (a b : Nat) (chA chB : Val → Bool)
 
 def PStep.toStep (lz : String → Bool) : PStep Val → Step Val
   | .input n v => if lz n then .placeholder n else .data v
@@ -124,6 +137,7 @@ def PStep.toStep (lz : String → Bool) : PStep Val → Step Val
   | .copy r => .copy r
   | .set d s => .set d s
   | .guarded op args g choice => .guarded op args g choice
+  | .guarded2 op a b chA chB => .guarded2 op a b chA chB
 
 /-- Run a program with the inputs selected by `lz` as placeholders. -/
 def runProg (sem : String → List Val → Option Val) (ort : Bool) (lz : String → Bool)
